@@ -13,6 +13,7 @@ DECIDED = [
     "SPEC(portable fallback): the overflow predicates of math.fallback.inl - division-free for add/sub, floor division by the second operand for mul (NUM: q*b <= MAX < q*b + b with product lemmas) - are exact for all operands",
     "ASM-FLAG: in the x86-64 assembly variants the arithmetic instruction matches the operation and width (add/mul, q for 64-bit, l for 32-bit) and the instruction that consumes the flags reads the carry flag for unsigned addition (setc/cmovc/jnc...; the overflow flag is the SIGNED overflow there) and carry or overflow for mul (CF = OF)",
     "SHIFT: in the portable bit scans (ctz) the mask `1 << idx` is at least as wide as the value it is and-ed with, so every bit of the value can be tested",
+    "NARROW: every implicit integer conversion to a narrower type inside the arithmetic helpers (math*.inl, clock.inl) is of a value that provably fits (NUM)",
     "VARIANTS: the builtin, x86-64 assembly and portable variants define the same functions with identical signatures",
     "CONVERT: aws_timestamp_convert_u64 asserts non-zero frequencies before dividing, uses only saturating multiply/add on tick quantities, its one raw subtraction/multiplication cannot wrap (quotient lemma), and writes the remainder only under new < old and old % new == 0",
 ]
@@ -230,6 +231,7 @@ def analyse(ctx, replace=None, only=None):
             R.check(len(cs) == 1 and cs[0].node["callee"] == want and [argstr(f, cs[0].node, i, addr=False) for i in (0, 1)] == ["a", "b"], "SPEC", "size_t:%s:forwards" % nm, where(f, cs[0]) if cs else nm,
                     "forwards (a, b) to %s" % want, "does not forward (a, b) in order to %s" % want)
     minmax(R, P)
+    narrowing(R, P)
     builtin_zero_guard(R, P)
     fallback(ctx, R, replace)
     convert(R, P)
@@ -259,6 +261,53 @@ def builtin_zero_guard(R, P):
         if R.require(f is not None, "%s not found" % nm):
             cs = [e.node["callee"] for e in f.all_events() if e.kind == "call" and e.node.get("callee")]
             R.check(cs in ([nm.replace("_size", "_u64")], [nm.replace("_size", "_u32")]), "SPEC", "builtin:%s:forwards-to-fixed-width" % nm, "%s()" % nm, "forwards to %s" % cs, "%s calls %s instead of the guarded fixed-width form" % (nm, cs))
+
+
+NARROW_FILES = ("math.inl", "math.gcc_overflow.inl", "math.gcc_builtin.inl", "math.fallback.inl", "math.gcc_x64_asm.inl", "clock.inl")
+
+
+def narrowing(R, P):
+    """NARROW: no implicit integer conversion in the arithmetic helpers drops bits: wherever a wider value is implicitly converted
+    to a narrower integer type (a narrower local, parameter or result), the value provably fits the narrower type (NUM at the
+    conversion, all operand values).  Explicit casts are the author's stated truncation and are not this rule's business."""
+    n_sites = 0
+    for f in sorted((f for f in P.by_key.values() if getattr(f, "blocks", None) and any(f.file.endswith("/" + x) for x in NARROW_FILES)), key=lambda f: (f.file, f.line)):
+        sites, seen = [], set()
+        for b in f.blocks.values():
+            for el in b.elems:
+                for n in f.walk(el):
+                    if n["k"] != "cast" or n.get("ck") != "IntegralCast" or not n.get("impl") or n["id"] in seen:
+                        continue
+                    seen.add(n["id"])
+                    t = f.unit.types[n["t"]]
+                    ft = f.unit.types[n["ft"]] if n.get("ft", -1) >= 0 else {}
+                    if "w" in t and "w" in ft and t["w"] < ft["w"] and f.is_const(n["a"][0]) is None:
+                        sites.append((el, n, t, ft))
+        if not sites:
+            continue
+        R.fn(f)
+        h = MathHooks()
+        h.use_summaries = True
+        num = Num(f, P, h)
+        try:
+            sts = num.states_at({el["id"] for el, _, _, _ in sites})
+        except Limit as ex:
+            R.broken("NARROW %s: %s" % (f.name, ex))
+            continue
+        for el, n, t, ft in sites:
+            lo, hi = num.trange(t)
+            ok, why, k = True, "", 0
+            for st in sts.get(el["id"], []):
+                k += 1
+                v = num.val(f.d(n["a"][0]), st)
+                if v is None or not (entails(st, v - hi) and entails(st, Poly.const(lo) - v)):
+                    ok, why = False, "%r" % (v,)
+                    break
+            n_sites += 1
+            R.check(ok and k >= 1, "NARROW", "%s:%s" % (f.name, f.show(n)[:50]), "%s:%d in %s()" % (f.file.replace("/repo/", ""), n.get("loc", [0])[0], f.name),
+                    "the %d-bit value fits the %d-bit type it is converted to" % (ft["w"], t["w"]),
+                    "a %d-bit value (%s) is implicitly converted to a %d-bit type and is not known to fit: the upper bits are dropped (for operands at or above 2^%d the helper computes on a different number)" % (ft["w"], why or "no state", t["w"], t["w"]))
+    R.require(n_sites >= 4, "only %d implicit narrowing conversions examined (confirmed: 8, the promoted 8/16-bit min/max)" % n_sites)
 
 
 def minmax(R, P):
@@ -329,6 +378,7 @@ def fallback(ctx, R, replace):
         R.check(len(asms) >= 1, "VARIANTS", "asm-variant-is-asm:%s" % nm, "math.gcc_x64_asm.inl", "assembly variant present (instruction semantics not analysed)")
         for e in asms:
             early_clobber(R, asm, e, nm)
+            asm_fixed_registers(R, asm, e, nm)
             asm_flags(R, asm, e, nm)
     shift_widths(R, P2)
 
@@ -401,6 +451,35 @@ def asm_flags(R, f, e, nm):
                 "the saturation value of %s is %s, the maximum of its type is 0x%X: on overflow the assembly variant returns another value than the other variants" % (nm, [hex(v) for v in vals], want))
     R.check(len(cons) == 1 and not bad, "ASM-FLAG", "flag:%s" % nm, loc, "the flags are consumed once, by `%s` (%s)" % (cons[0][0] if cons else "?", "carry" if op == "add" else "carry = overflow after mul"),
             "the overflow of an unsigned %s is read with %s: for an unsigned add the carry flag is the overflow (the overflow flag is the signed overflow: MAX + 1 is accepted and 0x7f..f + 1 refused)" % (op, [o for o, cc in cons]))
+
+
+def asm_fixed_registers(R, f, e, nm):
+    """operand discipline, second half: a hard register the template names (or an instruction uses implicitly: one-operand mul
+    reads rax and writes rdx:rax) must be tied to an operand by its constraint letter or be declared clobbered - otherwise the
+    compiler may keep the operand elsewhere (the template then updates the wrong register) or a live value there."""
+    import re
+    n = e.node
+    fam = {"a": ("rax", "eax", "ax", "al", "ah"), "b": ("rbx", "ebx", "bx", "bl", "bh"), "c": ("rcx", "ecx", "cx", "cl", "ch"), "d": ("rdx", "edx", "dx", "dl", "dh"),
+           "S": ("rsi", "esi", "si", "sil"), "D": ("rdi", "edi", "di", "dil")}
+    of = {r_: k for k, rs in fam.items() for r_ in rs}
+    used = {}
+    for l in n.get("asm", "").split("\n"):
+        for r_ in re.findall(r"%%?([a-z]{2,3})\b", l):
+            if r_ in of:
+                used.setdefault(of[r_], l.strip())
+        m = re.match(r"^\s*(mul|div)[bwlq]?\s+[^,]+$", l)
+        if m:
+            used.setdefault("a", l.strip())
+            used.setdefault("d", l.strip())
+    pinned = set()
+    for c_ in n.get("constraints", []):
+        pinned |= {ch for ch in c_ if ch in fam}
+    clob = {of[c_.lstrip("%")] for c_ in n.get("clobbers", []) if c_.lstrip("%") in of}
+    bad = sorted((k, l) for k, l in used.items() if k not in pinned and k not in clob)
+    R.check(not bad, "VARIANTS", "asm-fixed-registers:%s" % nm, "include/aws/common/math.gcc_x64_asm.inl:%d in %s()" % (n.get("loc", [0])[0], nm),
+            "every hard register of the template (%s) is tied to an operand or clobbered" % (sorted(used) or "none"),
+            "the template uses %s but no operand is constrained to that register and it is not clobbered (constraints %s): when the compiler keeps the operand in another register the instruction updates the wrong one (a saturating add then returns the wrapped sum)" %
+            (["%%%s in `%s`" % (fam[k][0], l) for k, l in bad], n.get("constraints", [])))
 
 
 def early_clobber(R, f, e, nm):
@@ -550,6 +629,8 @@ MUTANTS = [
     {"name": "fraction-scaled-by-truncated-ratio", "file": "include/aws/common/clock.inl", "expect": "CONVERT", "old": "    uint64_t new_ticks_remainder_part = aws_mul_u64_saturating(old_remainder, new_frequency) / old_frequency;", "new": "    uint64_t new_ticks_remainder_part = (new_frequency >= old_frequency) ? aws_mul_u64_saturating(old_remainder, new_frequency / old_frequency) : aws_mul_u64_saturating(old_remainder, new_frequency) / old_frequency;"},
     {"name": "asm-add-reads-signed-overflow", "file": "include/aws/common/math.gcc_x64_asm.inl", "expect": "ASM-FLAG", "old": "    __asm__(\"addq %[argb], %[arga]\\n\" /* [arga] = [arga] + [argb] */\n            \"setc %[flag]\\n\"", "new": "    __asm__(\"addq %[argb], %[arga]\\n\" /* [arga] = [arga] + [argb] */\n            \"seto %[flag]\\n\""},
     {"name": "fallback-mul-refuses-exact-quotient", "file": "include/aws/common/math.fallback.inl", "expect": "SPEC", "old": "AWS_STATIC_IMPL int aws_mul_u64_checked(uint64_t a, uint64_t b, uint64_t *r) {\n    if (a > 0 && b > 0 && a > (UINT64_MAX / b))", "new": "AWS_STATIC_IMPL int aws_mul_u64_checked(uint64_t a, uint64_t b, uint64_t *r) {\n    if (b > 0 && a >= (UINT64_MAX / b))"},
+    {"name": "asm-saturation-register-not-pinned", "file": "include/aws/common/math.gcc_x64_asm.inl", "expect": "VARIANTS", "old": '[arg2] "+a"(b)', "new": '[arg2] "+&r"(b)'},
+    {"name": "power-of-two-test-through-a-32-bit-local", "file": "include/aws/common/math.inl", "expect": "NARROW", "old": "    return x && (!(x & (x - 1)));", "new": "    const uint32_t rest = x & (x - 1);\n    return x && !rest;"},
     {"name": "asm-output-not-early-clobber", "file": "include/aws/common/math.gcc_x64_asm.inl", "expect": "VARIANTS", "old": '[arg2] "+&r"(b)', "new": '[arg2] "+r"(b)'},
     {"name": "remainder-modulo-old-frequency", "file": "include/aws/common/clock.inl", "expect": "CONVERT", "old": "*remainder = ticks % frequency_ratio;", "new": "*remainder = ticks % old_frequency;"},
     {"name": "u64-saturates-to-u32-max", "file": "include/aws/common/math.gcc_overflow.inl", "expect": "SPEC",
